@@ -35,7 +35,18 @@ def resolve(key):
     return getattr(importlib.import_module(m), q)
 
 
-def run_class(key, clauses):
+def nullable_used():
+    """classes that some field uses as a nullable struct (KIP-893 marker byte)"""
+    from spec import schema_spec
+    used = set()
+    for T in all_entities():
+        for fs in schema_spec.field_plan(T):
+            if fs.desc[0] == "nent":
+                used.add(class_key(fs.desc[1]))
+    return sorted(used)
+
+
+def run_class(key, clauses, nullable=False):
     """clauses: subset of {'write', 'match', 'trunc', 'general'}; returns summary dicts"""
     from checks import l1_serial as L1
     from contracts import entity as CE
@@ -44,9 +55,9 @@ def run_class(key, clauses):
     T = resolve(key)
     reg = CS.Registry(extra=CE.extra_lookup)
     out = []
-    short = key.replace("kio.schema.", "")
+    short = key.replace("kio.schema.", "") + ("[nullable]" if nullable else "")
     if "write" in clauses:
-        w = entity_writer(T)
+        w = entity_writer(T, nullable)
         c = reg.lookup(w)
         if c is None:
             out.append({"unit": f"L2/{short}/writer", "obligations": [], "paths": 0, "time": 0,
@@ -57,7 +68,7 @@ def run_class(key, clauses):
                 out.append(common.summarise(r, [common.function_record(w)]))
     rd = [c for c in ("match", "trunc", "general") if c in clauses]
     if rd:
-        r_ = entity_reader(T)
+        r_ = entity_reader(T, nullable)
         c = reg.lookup(r_)
         if c is None:
             out.append({"unit": f"L2/{short}/reader", "obligations": [], "paths": 0, "time": 0,
